@@ -219,12 +219,13 @@ def execute(job):
     return obs
 
 
-def execute_all(jobs):
+def execute_all(jobs, fn=None):
+    fn = fn or execute
     if len(jobs) < 1500:
-        return [execute(j) for j in jobs]
+        return [fn(j) for j in jobs]
     import multiprocessing as mp
     with mp.get_context("fork").Pool(8) as pool:
-        return pool.map(execute, jobs, chunksize=64)
+        return pool.map(fn, jobs, chunksize=64)
 
 
 # ----------------------------------------------------------------------------- float bridge
@@ -785,7 +786,7 @@ def roto_compare(pr, exp, obs):
 
 def rotosolve_part(tier, seed):
     rng = random.Random(seed + 61)
-    n_solve, n_select, steps = (160, 90, 2) if tier == "quick" else (1200, 600, 3)
+    n_solve, n_select, steps = (160, 90, 2) if tier == "quick" else (800, 400, 3)
     probs = [roto_problem(rng, "rotosolve" if i < n_solve else "rotoselect", i) for i in range(n_solve + n_select)]
     tprobs = [{k: v for k, v in p.items() if k != "layout"} for p in probs]
     g = lib.run_tlc_mc("RotoGen", {"Problems": tla_set(tprobs)}, lib.workdir(PID, "rotogen"), constants={"MaxSteps": steps},
@@ -797,7 +798,7 @@ def rotosolve_part(tier, seed):
     if len(hists) != len(probs) * 2 ** steps:
         raise lib.MachineryError(f"RotoGen emitted {len(hists)} histories for {len(probs)} problems")
     jobs = [(pr, [c[0] for c in h]) for pr, h in hists]
-    obs_all = [roto_execute(j) for j in jobs]
+    obs_all = execute_all(jobs, roto_execute)
     viol = {}
 
     def add(key, detail, pr, calls, obs):
